@@ -23,7 +23,7 @@ from . import fitsim
 
 PROPERTY = "C12"
 TIERS = {
-    "quick": {"runs": 480, "budget_s": 110, "chunk": 6},
+    "quick": {"runs": 2000, "budget_s": 110, "chunk": 6},
     "thorough": {"runs": 16000, "budget_s": 900, "chunk": 12},
 }
 REQUIRED_PROBES = {
